@@ -211,3 +211,46 @@ def nego_sel_real(sup_idx, pref_idx, kind, ans_idx, code, distractor, gaps, T):
     supported = [pick(i) for i in sup_idx]
     pref = None if pref_idx < 0 else pick(pref_idx)
     return nego_real(supported, pref, kind, pick(ans_idx), code, distractor, gaps, T)
+
+
+# ------------------------------------------------------------------ size / count dimension
+from harness import sizes as _sizes  # noqa: E402
+
+_sizes.size_cases(70000, extra=_sizes.ENV_SIZES)
+
+
+def nego_long(k, form, lim=70000):
+    """(0) answer = an offered version followed by n characters; (1) preceded by n characters; (2) an offered
+    version of its own that is n characters longer than a real one, answered exactly; (3) the same, but the server
+    answers the real (shorter, un-offered) one; (4) answer offered, preferred version n characters long and not in
+    the list.  n = c-1, c, c+1 for the integer constants c of the source"""
+    n = _sizes.pick(_sizes.size_cases(lim, extra=_sizes.ENV_SIZES), k)
+    a, b = REAL[0], REAL[1]
+    pad = "x" * n
+    if form == 0:
+        return nego([a, b], None, A_OK, b + pad, 0, False, [1], 100)
+    if form == 1:
+        return nego([a, b], None, A_OK, pad + b, 0, False, [1], 100)
+    if form == 2:
+        return nego([a, b + "-" + pad], b + "-" + pad, A_OK, b + "-" + pad, 0, False, [1], 100)
+    if form == 3:
+        return nego([a, b + "-" + pad], None, A_OK, b, 0, False, [1], 100)
+    return nego([a, b], "9" + pad, A_OK, b, 0, False, [1], 100)
+
+
+def nego_many(k, ans_where, pref_where, lim=410):
+    """supported list of n invented versions (n = c-1, c, c+1) plus one real one at the end; the answer / the
+    preferred version is the first, the middle, the last entry or a version that is not in the list"""
+    n = _sizes.pick(_sizes.size_cases(lim), k)
+    sup = ["v%05d" % i for i in range(n)] + [REAL[0]]
+
+    def at(w):
+        if w == 0:
+            return sup[0]
+        if w == 1:
+            return sup[len(sup) // 2]
+        if w == 2:
+            return sup[-1]
+        return "v-not-listed"
+
+    return nego(sup, (at(pref_where) if pref_where >= 0 else None), A_OK, at(ans_where), 0, False, [1], 100)
